@@ -95,7 +95,7 @@ class DocModel(Comp):
             r = results(out)
             npseudo = sum(1 for c in line.split("\t")[1:] if c.startswith("#"))
             r = r[npseudo:]
-            ans = ["W=111111"]
+            ans = ["W=1111111"]
             for (fmt, po), x in zip(PRINTS, r[4:4 + len(PRINTS)]):
                 if rc(x) != 0:
                     ans.append("%s%d print-failed" % (fmt, po))
